@@ -170,6 +170,51 @@ Section RunTrace.
         * intros x [<-|Hx]; [apply Hq; now left|auto].
   Qed.
 
+  (** ** the exact emission sequence, and distinctness of the expanded keys *)
+  Definition kview (x : item) : option (N * list (option V)) :=
+    match get_state A (fst x) with Ok s => Some (fst x, view D s (snd x)) | _ => None end.
+
+  Inductive emits_all : list item -> list (N * M) -> Prop :=
+  | ea_nil : emits_all [] []
+  | ea_cons x e T ms : emit_of x e -> emits_all T ms -> emits_all (x :: T) (e ++ ms).
+
+  Lemma emits_all_snoc T ms x e : emits_all T ms -> emit_of x e -> emits_all (T ++ [x]) (ms ++ e).
+  Proof.
+    induction 1 as [|x0 e0 T ms H0 HT IH]; intros He; cbn.
+    - rewrite <- (app_nil_r e). constructor; [exact He|constructor].
+    - rewrite <- app_assoc. constructor; auto.
+  Qed.
+
+  Lemma NoDup_map_Some {X} (l : list X) : NoDup l -> NoDup (map Some l).
+  Proof.
+    induction 1 as [|x l Hn Hd IH]; cbn; constructor; auto.
+    intros Hin. apply in_map_iff in Hin as [y [Ey Hy]]. inversion Ey; subst. contradiction.
+  Qed.
+
+  Theorem trace_loop_exact fuel : forall queue vis tr acc T ms,
+    trace_loop fuel queue vis tr acc = Ok (T, ms) ->
+    map Some vis = map kview tr -> NoDup vis -> emits_all (rev tr) (rev acc) ->
+    NoDup (map kview T) /\ emits_all T ms.
+  Proof.
+    induction fuel as [|f IH]; intros queue vis tr acc T ms R Hv Hn He; cbn in R; [discriminate|].
+    destruct queue as [|[id m] q].
+    - inversion R; subst. split; [|exact He].
+      rewrite map_rev, <- Hv. apply NoDup_rev. now apply NoDup_map_Some.
+    - destruct (get_state A id) as [s| |] eqn:G; cbn in R; try discriminate.
+      destruct (visited_mem D id (view D s m) vis) eqn:Vm; [eapply IH; eauto|].
+      destruct (emissions D h s m) as [em| |] eqn:Em; cbn in R; try discriminate.
+      destruct (next_legal_states D h s m) as [nexts| |] eqn:Nx; cbn in R; try discriminate.
+      eapply IH; [exact R| | |].
+      + cbn. unfold kview at 1. cbn. rewrite G. now rewrite Hv.
+      + constructor; auto. intros Hin. apply visited_mem_spec in Hin. congruence.
+      + cbn. rewrite rev_app_distr, rev_involutive. apply emits_all_snoc; auto. exists s. auto.
+  Qed.
+
+  (** items the traversal can produce at all *)
+  Inductive creach : item -> Prop :=
+  | cr_root : creach (au_root A, mempty D)
+  | cr_step x ys y : creach x -> succ_of x ys -> In y ys -> creach y.
+
   (** the run as a whole *)
   Theorem run_trace fuel ms :
     run D fuel A h = Ok ms ->
@@ -180,19 +225,28 @@ Section RunTrace.
       /\ (forall x, In x T -> exists ys e, succ_of x ys /\ emit_of x e)
       /\ (forall Pq : item -> Prop,
             (forall x ys y, Pq x -> succ_of x ys -> In y ys -> Pq y) -> Pq (au_root A, mempty D) ->
-            forall x, In x T -> Pq x).
+            forall x, In x T -> Pq x)
+      /\ NoDup (map kview T) /\ emits_all T ms.
   Proof.
     unfold run. rewrite (trace_loop_run fuel _ _ [] []).
     destruct (trace_loop fuel [(au_root A, mempty D)] [] [] []) as [[T ms']| |] eqn:R; cbn; try discriminate.
     intros X. inversion X; subst ms'.
+    destruct (trace_loop_exact _ _ _ _ _ _ _ R eq_refl (NoDup_nil _) ea_nil) as [HX1 HX2].
     destruct (trace_loop_closed _ _ _ _ _ _ _ R) as [_ [H2 [H3 [H4 H5]]]].
     - intros id v. cbn. split; [tauto|]. intros [m [s [[] _]]].
     - intros x ys y [].
     - intros x e pm [].
     - intros x [].
-    - exists T. split; [apply H2; now left|]. split; auto. split; auto. split; auto.
+    - exists T. split; [apply H2; now left|]. split; auto. split; auto. split; auto. split; [|split; auto].
       intros Pq Hstep H0 x Hx. eapply (trace_loop_inv Pq fuel Hstep); [exact R| | |exact Hx].
       + intros y [<-|[]]. exact H0.
       + intros y [].
   Qed.
+
+  Lemma trace_creach (T : list item) :
+    (forall Pq : item -> Prop,
+        (forall x ys y, Pq x -> succ_of x ys -> In y ys -> Pq y) -> Pq (au_root A, mempty D) ->
+        forall x, In x T -> Pq x) ->
+    forall x, In x T -> creach x.
+  Proof. intros HP. apply HP; [intros x ys y Hx Hs Hy; eapply cr_step; eauto|constructor]. Qed.
 End RunTrace.
